@@ -505,7 +505,18 @@ def c15_8(ctx):
     import itertools
     ok = True
     why = ""
-    for probe in ((0x3FF, 0, 0, 0), (0, 0x3FF, 0, 0), (0, 0, 0x3FF, 0), (0, 0, 0, 0x3FF), (0x2AA, 0x155, 0x2AA, 0x155), (0x155, 0x2AA, 0x155, 0x2AA)):
+    # probes: every value of every 4/5-bit field (walking ones / zeros for the 15-bit id) against an all-zero and an all-one background -- a
+    # precedence slip such as `hi | lo + 1` agrees with `(hi | lo) + 1` on most bit patterns, so single patterns do not decide it
+    layout = [("id", 25, 15), ("exponent", 20, 5), ("group_index", 16, 4), ("group_threshold", 12, 4), ("group_count", 8, 4), ("member_index", 4, 4), ("member_threshold", 0, 4)]
+    headers = [0x3FF << 30, 0x3FF << 20, 0x3FF << 10, 0x3FF, 0xAAAAAAAAAA, 0x5555555555]
+    for _, off, width in layout:
+        vals_ = range(1 << width) if width <= 5 else [0, (1 << width) - 1] + [1 << i for i in range(width)] + [((1 << width) - 1) ^ (1 << i) for i in range(width)]
+        for v_ in vals_:
+            for bg in (0, (1 << 40) - 1):
+                headers.append((bg & ~(((1 << width) - 1) << off)) | (v_ << off))
+    nprobe = len(headers)
+    for hdr in headers:
+        probe = ((hdr >> 30) & 0x3FF, (hdr >> 20) & 0x3FF, (hdr >> 10) & 0x3FF, hdr & 0x3FF)
         f = Folder(ctx.repo, mod.name, {"indices": list(probe)})
         vals = {}
         for name in want_r:
@@ -527,12 +538,12 @@ def c15_8(ctx):
         if vals != exp:
             ok = False
             bad = [k for k in exp if vals.get(k) != exp[k]]
-            why = "field %s is extracted as `%s`, which does not read bits at the position the encoder writes them" % (bad[0], exprs.get(bad[0]))
+            why = "field %s is extracted as `%s`, which for the header %#012x gives %s where the encoder wrote %s" % (bad[0], exprs.get(bad[0]), bits, vals.get(bad[0]), exp[bad[0]])
             break
     if ok is None:
         out.append(ctx.err("shamir:Share.parse", why, fn, mod))
     elif ok:
-        out.append(ctx.ok("shamir:Share.parse", "each header field is extracted from the bit positions the encoder writes (checked by folding the extraction expressions on 6 bit patterns)", fn, mod, key="header-reader"))
+        out.append(ctx.ok("shamir:Share.parse", "each header field is extracted from the bit positions the encoder writes (checked by folding the extraction expressions on %d headers: every value of every field on an all-zero and an all-one background)" % nprobe, fn, mod, key="header-reader"))
     else:
         out.append(ctx.bad("shamir:Share.parse", why, fn, mod, key="header-reader"))
     return out
@@ -652,7 +663,75 @@ def c15_13(ctx):
     return shared_obligations(ctx, ["shamir", "mnemonic"], "the result would depend on something other than the arguments and the object's current state")
 
 
+def c15_14(ctx):
+    """GF(256) arithmetic of the interpolation, evaluated.  (a) complete: with the two-share set {(1, Y), (0, 0…0)} the value at x = c is c·Y, so
+    x = 1..255 × Y = all 256 byte values walks the whole multiplication table the interpolation can use (65,280 products, every sum of two
+    logarithms 0..508) -- each must equal the carry-less product modulo x^8+x^4+x^3+x+1 computed by the rule.  (b) bounded: polynomials of degree
+    1..4 with fixed coefficients, shares at low and high indexes (0..15), recovered at x = 255, 254 and at a further share index.  The exp / log tables
+    are the ones ShareSet._load() builds in the same evaluation"""
+    from sa.cells import ClassRef, Evaluator, Raised, Undecided
+    spec = "shamir:ShareSet.interpolate"
+    mod, fn = rl.get(ctx, spec)
+
+    def gmul(a, b):
+        r = 0
+        while b:
+            if b & 1:
+                r ^= a
+            a <<= 1
+            if a & 0x100:
+                a ^= 0x11B
+            b >>= 1
+        return r
+    C = ClassRef("shamir", "ShareSet")
+    ev = Evaluator(ctx.repo, max_steps=10 ** 8)
+    Y = bytes(range(256))
+    try:
+        ev.call("shamir:ShareSet._load", [], self_obj=C)
+        for c in range(1, 256):
+            try:
+                got = ev.call(spec, [c, [(1, Y), (0, bytes(256))]], self_obj=C)
+            except Raised as x:
+                return [ctx.bad(spec, "interpolating the shares {(1, all byte values), (0, zeros)} at x = %d raises %s: a product of the Lagrange coefficient %d with some share byte "
+                                      "is outside the tables -- recovery / splitting crashes at those coordinates" % (c, x.name, c), fn, mod, key="gf-product")]
+            want = bytes(gmul(y, c) for y in Y)
+            if got != want:
+                i = next(i for i in range(256) if not isinstance(got, bytes) or i >= len(got) or got[i] != want[i])
+                return [ctx.bad(spec, "coefficient %d times share byte %d gives %s, GF(256) gives %d" % (c, i, got[i] if isinstance(got, bytes) and i < len(got) else got, want[i]), fn, mod, key="gf-product")]
+        ctx.count("cells", 255 * 256)
+        out = [ctx.ok(spec, "all 65,280 products coefficient × share byte equal GF(2^8) multiplication modulo 0x11B", fn, mod, key="gf-product")]
+        n = 0
+        for deg, xs in ((1, (0, 1)), (1, (14, 15)), (2, (0, 1, 2)), (2, (3, 9, 15)), (3, (0, 5, 10, 15)), (4, (1, 2, 3, 4, 5)), (4, (11, 12, 13, 14, 15)), (2, (0, 8, 9))):
+            coefs = [bytes((53 * (j + 1) * (i + 3) + 17 * j) & 255 for i in range(16)) for j in range(deg + 1)]
+
+            def poly(x):
+                res = bytearray(16)
+                for j, cf in enumerate(coefs):
+                    xp = 1
+                    for _ in range(j):
+                        xp = gmul(xp, x)
+                    for i in range(16):
+                        res[i] ^= gmul(cf[i], xp)
+                return bytes(res)
+            data = [(x, poly(x)) for x in xs]
+            for at in (255, 254, next(i for i in range(16) if i not in xs), 200):   # never a share's own x: the library only asks for new coordinates
+                n += 1
+                try:
+                    got = ev.call(spec, [at, list(data)], self_obj=C)
+                except Raised as x:
+                    return out + [ctx.bad(spec, "shares at x = %s of a degree-%d polynomial, value asked at x = %d: raises %s" % (list(xs), deg, at, x.name), fn, mod, key="gf-lagrange")]
+                if got != poly(at):
+                    return out + [ctx.bad(spec, "shares at x = %s of a degree-%d polynomial: the value at x = %d is not the polynomial's" % (list(xs), deg, at), fn, mod, key="gf-lagrange")]
+        ctx.count("cells", n)
+        out.append(ctx.ok(spec, "%d Lagrange cells (degree 1..4, share indexes 0..15, value at 255 / 254 / a further share index / 200) return the polynomial's value" % n, fn, mod, key="gf-lagrange"))
+        return out
+    except Undecided as u:
+        return [ctx.err(spec, "interpolation not evaluable: %s" % u, fn, mod)]
+
+
+
 OBLIGATIONS = [
+    ("C15.14", "CELLS GF(256)", c15_14),
     ("C15.13", "SHARED", c15_13),
     ("C15.12", "SET-ORDER", c15_12),
     ("C15.1", "GUARD", c15_1),
